@@ -112,7 +112,11 @@ static int split(char *line, char **tok, int max, const char *sep)
 static jwk_set_t *g_sets[NSLOT];
 static jwt_checker_t *g_ck[NSLOT];
 static jwt_builder_t *g_bl[NSLOT];
-struct cbctx { char prog[4096]; char obs[65536]; };
+#define OBS_MAX (8u << 20)
+/* what a callback observed: one shared buffer (only one verify / generate runs at a time, and its observations are printed
+ * right after it); large, so that a whole-object JSON read of a long claim set is never cut short */
+static char g_obs_shared[OBS_MAX];
+struct cbctx { char prog[4096]; char *obs; };
 static struct cbctx g_ckcb[NSLOT], g_blcb[NSLOT];
 static char *g_last_tok;   /* the token most recently returned by a `bl N gen` ("@last") */
 
@@ -128,8 +132,9 @@ static void obs_append(char *obs, const char *fmt, ...)
 {
 	va_list ap;
 	size_t l = strlen(obs);
+	if (l + 64 >= OBS_MAX) { fprintf(stderr, "executor: observation buffer full\n"); exit(3); }
 	va_start(ap, fmt);
-	vsnprintf(obs + l, 65536 - l, fmt, ap);
+	vsnprintf(obs + l, OBS_MAX - l, fmt, ap);
 	va_end(ap);
 }
 static void obs_hex(char *obs, const void *p, size_t n)
@@ -137,7 +142,10 @@ static void obs_hex(char *obs, const void *p, size_t n)
 	const unsigned char *b = p;
 	if (!p) { obs_append(obs, "NULL"); return; }
 	if (!n) { obs_append(obs, "-"); return; }
-	for (size_t i = 0; i < n; i++) obs_append(obs, "%02x", b[i]);
+	size_t l = strlen(obs);
+	if (l + 2 * n + 64 >= OBS_MAX) { fprintf(stderr, "executor: observation buffer full\n"); exit(3); }
+	for (size_t i = 0; i < n; i++) { obs[l++] = "0123456789abcdef"[b[i] >> 4]; obs[l++] = "0123456789abcdef"[b[i] & 15]; }
+	obs[l] = 0;
 }
 
 typedef jwt_value_error_t (*vfn_t)(void *, jwt_value_t *);
@@ -474,7 +482,7 @@ static void handle(char *line)
 				tok = unhex(t[3], &l1);
 				if (tok) { tx = malloc(l1 + 1); memcpy(tx, tok, l1); tx[l1] = 0; }
 			}
-			g_ckcb[c].obs[0] = 0;
+			g_ckcb[c].obs = g_obs_shared; g_obs_shared[0] = 0;
 			g_cb_cur = &g_ckcb[c];
 			int rc = jwt_checker_verify(ck, tx);
 			g_cb_cur = NULL;
@@ -490,7 +498,7 @@ static void handle(char *line)
 		if (!strcmp(t[2], "new")) { if (g_bl[b]) jwt_builder_free(g_bl[b]); g_bl[b] = jwt_builder_new(); g_blcb[b].prog[0] = 0; printf(g_bl[b] ? "ok" : "NULL"); goto done; }
 		if (!g_bl[b]) { printf("nobl"); goto done; }
 		jwt_builder_t *bl = g_bl[b];
-		char obs[65536]; obs[0] = 0;
+		static char obs[OBS_MAX]; obs[0] = 0;
 		if (!strcmp(t[2], "free")) { jwt_builder_free(bl); g_bl[b] = NULL; printf("ok");
 		} else if (!strcmp(t[2], "setkey") && n >= 4) {
 			const jwk_item_t *it = (n >= 6) ? get_item(t[4], t[5]) : NULL;
@@ -508,7 +516,7 @@ static void handle(char *line)
 		} else if ((!strcmp(t[2], "hget") || !strcmp(t[2], "cget")) && n >= 5) { op_get(obs, t[2][0] == 'h' ? 0 : 1, bl, t[3], t[4]); fputs(obs, stdout);
 		} else if ((!strcmp(t[2], "hdel") || !strcmp(t[2], "cdel")) && n >= 4) { op_del(obs, t[2][0] == 'h' ? 0 : 1, bl, t[3]); fputs(obs, stdout);
 		} else if (!strcmp(t[2], "gen")) {
-			g_blcb[b].obs[0] = 0;
+			g_blcb[b].obs = g_obs_shared; g_obs_shared[0] = 0;
 			g_cb_cur = &g_blcb[b];
 			char *tok = jwt_builder_generate(bl);
 			g_cb_cur = NULL;
